@@ -119,6 +119,24 @@ def _successor_space(fm: FuncModel, e: ast.AST, at, sd_p: str, node_p: str, dept
         defs = fm.cfg.reaching_defs(e.id, at)
         for d in defs:
             a = d.ast
+            if d.kind == "for" and isinstance(a.iter, ast.Name) and isinstance(a.target, ast.Name) and a.target.id == e.id:
+                # element of a list of successor spaces
+                for d2, v2 in fm.value_defs(a.iter.id, d):
+                    if is_empty_list(v2):
+                        continue
+                    okc = isinstance(v2, ast.ListComp) and len(v2.generators) == 1 and not v2.generators[0].ifs \
+                        and isinstance(v2.generators[0].target, ast.Name)
+                    if okc:
+                        g0 = v2.generators[0]
+                        el = v2.elt
+                        h = fm.raw_handle(el.value) if isinstance(el, ast.Subscript) and isinstance(el.slice, ast.Constant) \
+                            and el.slice.value == "space" else None
+                        it = g0.iter
+                        okc = h is not None and text(h[1]) == g0.target.id and isinstance(it, ast.Call) \
+                            and callee_name(it) == "node_successors" and bool(it.args) and text(it.args[0]) == node_p
+                    if not okc:
+                        return False, f"`{a.iter.id}` is not a list of the spaces of the successors of `{node_p}`"
+                continue
             v = a.value if d.kind == "stmt" and isinstance(a, (ast.Assign, ast.AnnAssign)) else None
             if v is None:
                 return False, f"`{e.id}` is not a space of a successor"
